@@ -36,7 +36,7 @@ PROPS = {
             "CV.Csr.bank_path", "CV.Csr.evmTransfer_flow", "CV.Csr.evmTransfer_ok", "CV.Csr.postTx_ok", "CV.Csr.split_ok",
             "CV.Bank.applyAll_flow",
         ],
-        comps={"outcome", "bank", "turnstile", "registry", "params"},
+        comps={"outcome", "bank", "turnstile", "registry", "params", "abi"},
         assumptions=_CSR_ASSUME,
     ),
     "C16": dict(
@@ -51,7 +51,7 @@ PROPS = {
             "CV.Csr.at_most_one_monitor", "CV.Csr.postTx_idx", "CV.Csr.step_idx", "CV.Csr.changes_explained_monitor",
             "CV.Csr.new_id_explained", "CV.Csr.no_recreate_monitor", "CV.Csr.inert_preserves_registry_monitor",
         ],
-        comps={"outcome", "registry"},
+        comps={"outcome", "registry", "abi"},
         assumptions=_CSR_ASSUME,
     ),
 }
